@@ -286,11 +286,16 @@ func (r *runner) observe(action sx.S, lab string, sentNow *req) {
 	}
 	var ds []dsp
 	stops := 0
+	// the writer and the handler goroutines log concurrently: a frame that frees a tag is handed to
+	// the conn before the loop can dispatch a request reusing it, so frames are accounted for first
 	for _, it := range items {
-		switch it.kind {
-		case itTake:
+		if it.kind == itTake {
 			takes = append(takes, sx.L(sx.U(uint64(it.tag)), sx.B(it.payload)))
 			r.onTake(it)
+		}
+	}
+	for _, it := range items {
+		switch it.kind {
 		case itDisp:
 			ds = append(ds, dsp{it.rid, it.payload})
 			r.onDispatch(it, sentNow)
@@ -424,7 +429,7 @@ func (r *runner) onTake(it item) {
 						r.fail("c07.ack-before-cancel", fmt.Sprintf("Rflush for flush %d was handed to the conn while the context of request %d was not cancelled", hit.rid, v.rid))
 					}
 				}
-			} else if v != nil && hit.class == "flush" && v.dispatched && !v.released {
+			} else if v != nil && hit.class == "flush" && v.dispatched && !v.released && !v.maybeFlushed {
 				r.fail("c07.unknown-tag-for-outstanding", fmt.Sprintf("flush %d names outstanding tag %d but got 'unknown tag'", hit.rid, hit.oldtag))
 			}
 			hit.ackTaken = true
@@ -596,7 +601,8 @@ func (r *runner) checkShutdown() {
 	ret, stops := w.ret, w.stops
 	var notc []int
 	for _, iv := range w.invs {
-		if iv.rid >= 0 && r.reqs[iv.rid].inFlightAtFault && iv.ctx.Err() == nil {
+		// in flight when serving ended: handed to the handler and never answered
+		if iv.rid >= 0 && r.reqs[iv.rid].replies == 0 && iv.ctx.Err() == nil {
 			notc = append(notc, iv.rid)
 		}
 	}
